@@ -138,6 +138,22 @@ VARIANTS = [
     V( 'duration-hours-from-days', TIMES, "hours = d_secs // cls.HR", "hours			= w_secs // cls.HR", fires=[ 'T-DURATION' ] ),
     V( 'record-split-once', HFILES, "dt,sn,js = l.split( '\\t', 2 )", "dt,sn,js			= l.split( '\\t' )", fires=[ 'T-RECORD' ] ),
     V( 'record-no-newline', HFILES, "json.dumps( data ))) + '\\n',", "json.dumps( data ))),", fires=[ 'T-RECORD' ] ),
+    # ---- C04 fragment arithmetic (F-*)
+    V( 'frag-round-down', LOGIX, "endadv = max(( offremains + max_size + siz - 1 ) // siz, 1 ) # rounds up", "endadv		= max(( offremains + max_size ) // siz, 1 )", fires=[ 'F-FRAG' ] ),
+    V( 'frag-round-extra-element', LOGIX, "endadv = max(( offremains + max_size + siz - 1 ) // siz, 1 ) # rounds up", "endadv		= max(( offremains + max_size + siz ) // siz, 1 )", fires=[ 'F-FRAG' ] ),
+    V( 'frag-round-equivalent-idiom', LOGIX, "endadv = max(( offremains + max_size + siz - 1 ) // siz, 1 ) # rounds up", "endadv		= max( -( -( offremains + max_size ) // siz ), 1 )", silent=[ 'F-FRAG' ] ),
+    V( 'frag-round-equivalent-reordered', LOGIX, "endadv = max(( offremains + max_size + siz - 1 ) // siz, 1 ) # rounds up", "endadv		= max( 1, ( max_size - 1 + siz + offremains ) // siz )", silent=[ 'F-FRAG' ] ),
+    V( 'frag-no-minimum', LOGIX, "endadv = max(( offremains + max_size + siz - 1 ) // siz, 1 ) # rounds up", "endadv		= ( offremains + max_size + siz - 1 ) // siz", fires=[ 'F-FRAG' ] ),
+    V( 'frag-budget-ignores-remainder', LOGIX, "endadv = max(( offremains + max_size + siz - 1 ) // siz, 1 ) # rounds up", "endadv		= max(( max_size + siz - 1 ) // siz, 1 )", fires=[ 'F-FRAG' ] ),
+    V( 'frag-remainder-wrong', LOGIX, "offremains = off - begadvance * siz", "offremains		= off - begadvance", fires=[ 'F-FRAG' ] ),
+    V( 'frag-remainder-modulo', LOGIX, "offremains = off - begadvance * siz", "offremains		= off % siz", silent=[ 'F-FRAG' ] ),
+    V( 'frag-offset-for-all-services', LOGIX, "if data.service in (self.RD_FRG_RPY, self.WR_FRG_RPY):\n off = data[context].get( 'offset' ) or 0", "if data.service in (self.RD_FRG_RPY, self.WR_FRG_RPY, self.RD_TAG_RPY):\n            off			= data[context].get( 'offset' ) or 0", fires=[ 'F-FRAG' ] ),
+    V( 'frag-end-not-clipped', LOGIX, "end = min( endactual, endmax )", "end			= endmax", fires=[ 'F-FRAG' ] ),
+    V( 'frag-progress-assert-dropped', LOGIX, 'assert beg < end, \\\n "Attribute %r ending element before beginning: %r" % ( attribute, (beg, end) )', 'pass', fires=[ 'F-FRAG' ] ),
+    V( 'frag-status-inverted', LOGIX, "data.status = 0x00 if completed else 0x06", "data.status		= 0x06 if completed else 0x00", fires=[ 'F-STATUS' ] ),
+    V( 'frag-status-complete-le', LOGIX, "completed = end == endactual\n data[context].data = recs", "completed		= end <= endactual\n                data[context].data	= recs", fires=[ 'F-STATUS' ] ),
+    V( 'frag-status-equivalent', LOGIX, "completed = end == endactual\n data[context].data = recs", "completed		= not ( end < endactual )\n                data[context].data	= recs", silent=[ 'F-STATUS' ] ),
+    V( 'frag-read-from-start', LOGIX, "recs = attribute[beg:end]", "recs			= attribute[0:end]", fires=[ 'F-STATUS' ] ),
     # ---- C18 history replay structure (H-*)
     V( 'hparse-comment-kept-at-eof', HFILES, "l = None\n continue # blank or comment", "continue # blank or comment", fires=[ 'H-PARSE' ] ),
     V( 'hparse-for-else-raise', HFILES, "l = None\n continue # blank or comment\n break\n if not l:\n raise StopIteration( \"Empty file\" )", "continue # blank or comment\n        break\n    else:\n        raise StopIteration( \"Empty file\" )\n    if not l:\n        raise StopIteration( \"Empty file\" )", silent=[ 'H-PARSE', 'T-RECORD' ] ),
